@@ -89,6 +89,8 @@ fn build_case(data: &[u16], tier: Tier, max_depth: u8) -> Option<(usize, Vec<Sea
                 SearchSpec { fen, moves, limit: gen_limit(&mut t, max_depth) }
             }
         };
+        let mut spec = spec;
+        tame(&mut spec);
         base = Some((spec.fen.clone(), spec.moves.clone()));
         searches.push(spec);
     }
